@@ -214,16 +214,9 @@ func (st *wstate) checkClean(i int, l *scen.Lifetime, lf *model.Life, rep *scen.
 	}
 	for _, id := range sum.Tests {
 		if obsIDs[id] > 0 || freeIDs[id] || plan.MaybeDirty(id) {
-			if _, keep := keepIDs[id]; keep && plan.Deletes {
-				// the listing cannot be attributed (the id is legitimately listed for another
-				// file or may live in an unpredicted one), but in clean mode a listed id may
-				// have been removed wherever it occurs: those files are no longer predicted
-				for k := range plan.KeepTests {
-					if f, kid := model.SplitKey(k); kid == id {
-						st.d.MarkDirty(f, false)
-					}
-				}
-			}
+			// (the listing cannot be attributed to one file: the id is legitimately listed for
+			// another file or may live in an unpredicted one. Whether the kept entry of the
+			// same id survived is decided by the disk comparison below.)
 			continue
 		}
 		if prop, keep := keepIDs[id]; keep {
